@@ -131,4 +131,11 @@ def programs(tier):
     add("duplicate-parameter", "method", "struct S { a: int32 }\nimpl S { fn m(self: S, k: int32, k: int32) -> int32 { k } }\n" + MAINH + "    let _ = string_println(int32_to_string(S { a: 1 }.m(5, 6)));\n" + MAINT, [], expect="reject")
     add("duplicate-parameter", "generic-function", "fn g[T](x: T, x: T) -> T { x }\n" + MAINH + "    let _ = string_println(int32_to_string(g(1, 2)));\n" + MAINT, [], expect="reject")
     add("duplicate-parameter", "distinct-names:control", "fn f(x: int32, y: int32) -> int32 { x - y }\n" + call, ["-1"])
+    # ---- the name the editor queries insert after a `.` (`completion_placeholder`) written in a program: not a field of anything
+    # (it type-checked as unit on every struct and match compilation panicked on the missing field)
+    ph = "struct P { x: int32 }\nstruct G[T] { v: T }\n"
+    add("placeholder-field", "read", ph + MAINH + "    let p = P { x: 1 };\n    let u = p.completion_placeholder;\n    let _ = string_println(int32_to_string(p.x));\n" + MAINT, [], expect="reject")
+    add("placeholder-field", "read-on-generic-struct", ph + MAINH + "    let g = G { v: 1 };\n    let u = g.completion_placeholder;\n" + MAINT, [], expect="reject")
+    add("placeholder-field", "read-in-closure", ph + MAINH + "    let f = |p: P| p.completion_placeholder;\n    let _ = f(P { x: 2 });\n" + MAINT, [], expect="reject")
+    add("placeholder-field", "declared-field-of-that-name:control", "struct Q { completion_placeholder: int32 }\n" + MAINH + "    let q = Q { completion_placeholder: 4 };\n    let _ = string_println(int32_to_string(q.completion_placeholder));\n" + MAINT, ["4"])
     return out
